@@ -155,7 +155,16 @@ def gen_cases(tier: str, seed: int) -> List[Dict]:
         nm = names or rng.choice(names_pool)
         nt = nterms or rng.choice([1, 2])
         exps = S.exps_for(len(nm), maxexp, rng, nt, include_const=rng.random() < 0.5)
-        return S.make_poly_spec(prefix, nm, exps, shape, rng, atoms if atoms is not None else (6 if quick else 9), zero_prob=zero, literal_prob=0.15, mode=rng.choice(["raw", "clean"]))
+        view = rng.choice([None, None, None, "T", "rev", "swap"]) if len(shape) >= 2 and S.size_of(shape) > 1 else (rng.choice([None, None, "rev"]) if len(shape) == 1 and shape[0] > 1 else None)
+        base = tuple(shape)
+        if view == "T":
+            base = tuple(reversed(shape))
+        elif view == "swap":
+            base = (shape[-1],) + tuple(shape[1:-1]) + (shape[0],)
+        spec = S.make_poly_spec(prefix, nm, exps, base, rng, atoms if atoms is not None else (6 if quick else 9), zero_prob=zero, literal_prob=0.15, mode=rng.choice(["raw", "clean"]))
+        if view:
+            spec["view"] = view
+        return spec
 
     def axes_for(shape):
         nd = len(shape)
@@ -207,6 +216,15 @@ def gen_cases(tier: str, seed: int) -> List[Dict]:
         add("inner", [P((k,), "a", atoms=3, names=("q0", "q1")), P((k,), "b", atoms=3, names=("q1",))])
     for s1, s2 in [((2,), (3,)), ((1,), (2,)), ((2, 2), (2,)), ((), (2,))]:
         add("outer", [P(s1, "a", atoms=3), P(s2, "b", atoms=3, names=("q1", "q2"))])
+    for view in ("T", "swap", "rev"):
+        a = P((3, 2), "a", atoms=4)
+        a["view"] = view
+        a["shape"] = [2, 3] if view != "rev" else [3, 2]
+        a["slots"] = [col[:6] for col in a["slots"]]
+        b = P((2,), "b", atoms=2, names=("q1",))
+        b.pop("view", None)
+        add("outer", [a, b], tag="-view%s" % view)
+        add("outer", [b, a], tag="-view%s" % view)
     # matmul: vectors, matrices 1x1..3x3, stacked
     mm = [((2,), (2,)), ((2, 2), (2,)), ((2,), (2, 2)), ((1, 1), (1, 1)), ((2, 2), (2, 2)), ((1, 2), (2, 3)), ((3, 3), (3, 3)), ((2, 2, 2), (2, 2)), ((2, 1, 2), (2, 2, 1)), ((2, 2), (2, 2, 2))]
     for s1, s2 in mm if not quick else mm[:8]:
